@@ -507,6 +507,9 @@ func (t *wScreen) Resume() error {
 	}
 	t.running = true
 
+	// Suspend cleared the page, so everything has to be drawn again.
+	t.cells.Invalidate()
+
 	t.enableMouse(t.mouseFlags)
 	t.enablePasting(t.pasteEnabled)
 
